@@ -239,7 +239,27 @@ func rewriteFile(path, rel string, stmtYield, quiet bool) ([]byte, bool) {
 
 	// 2 + 4 + 5: statement level rewrites
 	if !quiet {
+		// no statement-level yields inside range loops: the number of iterations executed
+		// before a break depends on Go's randomised map iteration order, and a scheduling
+		// point per iteration would make the schedule depend on it
+		inRange := map[ast.Node]bool{}
 		ast.Inspect(f, func(n ast.Node) bool {
+			if rs, ok := n.(*ast.RangeStmt); ok {
+				ast.Inspect(rs.Body, func(m ast.Node) bool {
+					switch m.(type) {
+					case *ast.BlockStmt, *ast.CaseClause, *ast.CommClause:
+						inRange[m] = true
+					}
+					return true
+				})
+			}
+			return true
+		})
+		ast.Inspect(f, func(n ast.Node) bool {
+			save := r.stmt
+			if inRange[n] {
+				r.stmt = false
+			}
 			switch x := n.(type) {
 			case *ast.BlockStmt:
 				x.List = r.rewriteList(x.List)
@@ -248,6 +268,7 @@ func rewriteFile(path, rel string, stmtYield, quiet bool) ([]byte, bool) {
 			case *ast.CommClause:
 				x.Body = r.rewriteList(x.Body)
 			}
+			r.stmt = save
 			return true
 		})
 	}
